@@ -1,4 +1,5 @@
 import GMProofs.Lemmas.ClosestL
+import GMProofs.Lemmas.EMapDefinedL
 /-
   C01 — Exchange map reproduces the aligned target (anchor-and-scale law).
 
@@ -87,6 +88,22 @@ theorem exchange_length (pos : List (V3 ℝ)) (nbrs : List (List Nat)) (r1 r2 tg
   have h2 := optMapM_length _ _ _ hout
   simp only [List.length_zip, List.length_map, Nat.min_self] at h2
   omega
+
+/-- **Definedness.** For every well-formed reference (≥ 3 atoms, neighbour indices in range, at least one
+    atom with two bonds) the map is built and can be applied to every conformation with the same number
+    of atoms: no lookup fails (the hypotheses of the theorems above are met by an actual run). -/
+theorem exchange_defined {pos : List (V3 ℝ)} {nbrs : List (List Nat)} (hw : WFRef pos.length nbrs)
+    (r1 tgt : List (V3 ℝ)) (s : ℝ) :
+    ∃ m, EMap.build pos nbrs r1 tgt s = some m ∧
+      ∀ (arg r2 : List (V3 ℝ)), arg.length = pos.length → ∃ out, m.apply nbrs arg r2 = some out :=
+  emap_defined hw r1 tgt s
+
+/-- a bent 3-atom chain is a well-formed reference -/
+example : WFRef 3 [[1], [0, 2], [1]] := by
+  refine ⟨by omega, rfl, ?_, by decide⟩
+  intro nb hnb k hk
+  simp only [List.mem_cons, List.not_mem_nil, or_false] at hnb
+  rcases hnb with rfl | rfl | rfl <;> simp at hk <;> omega
 
 /-! ### non-vacuity: concrete references satisfying the hypotheses -/
 
